@@ -127,6 +127,30 @@ def run(tier, PROP="C01"):
                     broken.append({"kind": "correspondence", "msg": f"e2e: `{elines[i]}` real `{ereal[i]}` model `{emodel[i]}`"})
             chk.coverage["e2e_cases"] = len(ecases)
             chk.coverage["emitted_statements_sample"] = dict(list(opmods.emitted_statements(oc, nops).items())[:8])
+        # operands given as immediates (`t.const` of every LEB128 length, minimal and redundantly padded; float immediates): what an
+        # instruction computes is only right if the constant reached it — reader -> literal -> compiler (the same pipeline C07 ties)
+        try:
+            import const_e2e
+            tys = ("i32", "i64") if PROP == "C01" else ("f32", "f64")
+            pipe = []
+            for t in tys:
+                bs = ro.boundary(t)
+                bs = bs if tier == "thorough" or t[0] == "i" else bs[:: max(1, len(bs) // 300)]
+                for k, b in enumerate(bs):
+                    pipe.append((t, b, 0))
+                    if t[0] == "i" and k % 3 == 0:
+                        pipe.append((t, b, 1 + (b % 9)))
+            got, _ = const_e2e.run(repo, d, pipe, tag="c01")
+            npipe = len(pipe)
+            for k, (t, b, pad) in enumerate(pipe):
+                for via, v in (("function body", got[k]), ("global initialiser", got[npipe + k])):
+                    if v != b:
+                        chk.violation(f"{t}-const-operand",
+                                      f"an operand given as {t}.const {b:#x} (immediate bytes {const_e2e.imm(t, b, pad).hex()}, in a {via}) reaches the compiled output of the real w2c2 as {v:#x}",
+                                      {"type": t, "bits": "%x" % b, "pad": pad, "via": via, "got": "%x" % v, "kind": "const-operand"}, True)
+            chk.coverage["const_operand_cases"] = npipe
+        except Exception as e:
+            broken.append({"kind": "const-pipeline", "msg": str(e)[-800:]})
         chk.coverage["traces_validated_against_impl"] = len(cases) if real else 0
     if tier == "thorough" and pr["build_ok"]:
         bad = leanchecker(chk, MODULES)
@@ -163,6 +187,13 @@ def replay(path, PROP="C01"):
     r = json.load(open(path))
     with vlib.scratch("c01r-") as d:
         repo = vlib.copy_repo(os.path.join(d, "repo"))
+        if r.get("kind") == "const-operand":
+            import const_e2e
+            t, b, pad = r["type"], int(r["bits"], 16), r["pad"]
+            got, _ = const_e2e.run(repo, d, [(t, b, pad)], tag="c01r")
+            v = got[0] if r["via"] == "function body" else got[1]
+            print(f"replay {t}.const {b:#x} (pad {pad}, {r['via']}): compiled output gives {v:#x}")
+            return 0 if v == b else 1
         if r.get("kind") == "e2e":
             exe, _ = opmods.build_harness(repo, d, [o for o in opmods.numeric_ops() if cfg["is_mine"](o)])
         else:
